@@ -7,7 +7,7 @@ package mux
 
 //@ arith int
 //@ property C15
-//@ assumption mux: the backing store is modelled as a ghost map (storeMap); a store callback that returns an error has not changed the store (atomic failure), a successful add/update/upsert leaves exactly its returned value stored under the operation's key, a successful delete removes exactly that key, a successful load returns the stored value
+//@ assumption mux: the backing store is modelled as a ghost map (storeMap); a store callback that returns an error has not changed the store (atomic failure), a successful add/update leaves exactly its returned value stored under the operation's key, a successful upsert leaves a value stored under the key and its returned value is that stored value only when it was handed the currently stored item as the existing item (handed nil it returns what it can compute from the input alone, which is why the handler reloads), a successful delete removes exactly that key, a successful load returns the stored value
 //@ assumption mux: a cache facade behaves like a map that may drop entries on Set (LRU eviction) but never invents or alters one; one worker's cache is only written by that worker's handlers
 //
 //@ ghost storeMap map[interface{}]interface{}
@@ -57,8 +57,9 @@ package mux
 //@   ensures #failed err != nil ==> storeSame()
 //@   modifies entries(storeMap)
 //@ func funcval op.upsertFn
-//@   trusted store callback
-//@   ensures #written err == nil ==> has(storeMap, curKey) && storeMap[curKey] == v && storeSameBut(curKey)
+//@   trusted store callback; the returned value is the stored one only when the existing item e it was given is the stored one
+//@   ensures #written err == nil ==> has(storeMap, curKey) && storeSameBut(curKey)
+//@   ensures #merged err == nil && old(has(storeMap, curKey)) && e == old(storeMap[curKey]) ==> storeMap[curKey] == v
 //@   ensures #failed err != nil ==> storeSame()
 //@   modifies entries(storeMap)
 //@ func funcval op.deleteFn
@@ -123,7 +124,8 @@ package mux
 //@   requires w != nil && c != nil && op != nil && coh() && curKey == op.k
 //@   ensures #coherent coh()
 //@   ensures #once replies == old(replies) + 1
-//@   ensures #value lastErr == nil ==> has(storeMap, op.k) && lastR == storeMap[op.k]
+//@   ensures #value lastErr == nil ==> has(storeMap, op.k) && (old(has(cacheMap, op.k)) ==> lastR == storeMap[op.k] && has(cacheMap, op.k) && cacheMap[op.k] == lastR)
+//@   ensures #nocache !old(has(cacheMap, op.k)) ==> cacheSame()
 //@   ensures #failed lastErr != nil ==> storeSame() && cacheSame()
 //@   modifies entries(cacheMap), entries(storeMap), lastR, lastErr, replies
 //
